@@ -3,7 +3,7 @@
 # quick checks listed in its meta.json; every line of work/regress_benign.tsv must say holds (exit 0):
 #   <name> <property> <exit> <verdict: holds|holds-fallback|VIOLATION…>
 cd /verif
-OUT=work/regress_benign.tsv
+OUT=${REGRESS_OUT:-work/regress_benign.$$.tsv}
 : > $OUT
 for d in benign/${1:-*}; do
   n=$(basename $d)
@@ -18,3 +18,4 @@ for d in benign/${1:-*}; do
   done
 done
 echo REGRESS DONE >> $OUT
+echo "results in $OUT"
